@@ -827,6 +827,12 @@ class Interp:
             for i, b in enumerate(bs[:256]):
                 pass
             return VRegion(origin, Lin.const(0), Lin.const(len(bs)), False)
+        if isinstance(t, dict) and t.get("k") == "ref" and not t.get("mut"):
+            to = self.rt(t["to"])
+            if isinstance(to, dict) and to["k"] == "array" and self.is_u8(to["of"]) and to["len"] is not None:
+                if to["len"] == 0:
+                    return VRegion(("empty",), Lin.const(0), Lin.const(0), False)
+                return VRegion(("constref", fresh_id()), Lin.const(0), Lin.const(to["len"]), False)
         return VOpaque(t, ("const", fresh_id()))
 
     def const_tree(self, st, k, t):
@@ -918,6 +924,9 @@ class Interp:
                 alo, ahi = static_bounds(a)
                 if alo is not None and alo >= 0 and ahi is not None and (ahi << k) <= hi_t:
                     return a.scale(1 << k)
+                if st is not None and hi_t is not None and st.entails(a) and \
+                        st.entails(Lin.const(hi_t) - a.scale(1 << k)):
+                    return a.scale(1 << k)
                 ma = mask_of_lin(a)
                 m = ((ma << k) & ((1 << bits) - 1)) if ma is not None else None
                 return Lin.atom(reg_atom(("shl", a.key(), k, bits), 0, m if m is not None else hi_t, m))
@@ -954,12 +963,20 @@ class Interp:
                 if a.is_const() and a.c >= 0:
                     return Lin.const(a.c % b.c)
                 alo, ahi = static_bounds(a)
+                if (alo is None or alo < 0) and st is not None and st.entails(a):
+                    alo = 0
                 if alo is not None and alo >= 0:
                     if all(v % b.c == 0 for v in a.t.values()) and all(v > 0 for v in a.t.values()):
                         return Lin.const(a.c % b.c)
                     if ahi is not None and ahi < b.c:
                         return a
                     at = reg_atom(("rem", a.key(), b.c), 0, b.c - 1)
+                    if st is not None:
+                        # definitional link (also when the static lower bound of `a` is negative)
+                        q = reg_atom(("div", a.key(), b.c), 0, None if ahi is None else max(ahi, 0) // b.c)
+                        e = a - Lin.atom(at) - Lin.atom(q).scale(b.c)
+                        st.add_ge0(e)
+                        st.add_ge0(-e)
                     return Lin.atom(at)
             return Lin.atom(reg_atom(("remv", a.key(), b.key()), lo_t, hi_t))
         return Lin.atom(reg_atom(("binop", op, a.key(), b.key()), lo_t, hi_t))
@@ -1524,13 +1541,40 @@ class Interp:
                 for x in self.walk_regions(f, path + (i,), depth + 1):
                     yield x
 
+    def walk_lenerrs(self, v, depth=0):
+        if depth > 6 or v is None:
+            return
+        if isinstance(v, VAdt):
+            if v.path == "err::len_error::LenError" and v.fields is not None:
+                yield v
+            elif v.fields is not None:
+                for f in v.fields:
+                    if isinstance(f, (VAdt, VTuple)):
+                        for x in self.walk_lenerrs(f, depth + 1):
+                            yield x
+            elif v.variant is None and v.ty is not None and "Error" in v.path:
+                yield "unknown"
+        elif isinstance(v, VTuple):
+            for f in v.fields:
+                if isinstance(f, (VAdt, VTuple)):
+                    for x in self.walk_lenerrs(f, depth + 1):
+                        yield x
+
     def record_provenance(self, st, fr, rv):
         body = fr.body
+        if self.prov is None:
+            self.prov = {}
+        # which length sources can a returned LenError carry
+        for le in self.walk_lenerrs(rv):
+            cur = self.prov.setdefault("__lensrc__", set())
+            if le == "unknown":
+                cur.add("any")
+            else:
+                src = le.fields[2]
+                cur.add(src.variant if isinstance(src, VAdt) and src.variant is not None else "any")
         i = self.single_slice_param(body)
         if i is None:
             return
-        if self.prov is None:
-            self.prov = {}
         origin = ("s", ("arg", body["path"], i))
         total = Lin.atom(("len", origin))
         t = self.rt(body["locals"][i + 1][0])
